@@ -68,7 +68,11 @@ func patternInputs() []map[string]tVal {
 
 func bindInputs() []map[string]tVal {
 	var out []map[string]tVal
-	pats := [][]tVal{{patVar}, {patArr1}, {rec("Pattern", "Object", tlist(poAlts[0]))}, {patVar, patArr1}, {patArr2, patVar, rec("Pattern", "Object", tlist(poAlts[5]))}}
+	patB := rec("Pattern", "Name", tstr("$b"))
+	patC := rec("Pattern", "Object", tlist(rec("PatternObject", "Key", tstr("$c")), rec("PatternObject", "Key", tstr("d"), "Val", rec("Pattern", "Name", tstr("$d")))))
+	pats := [][]tVal{{patVar}, {patArr1}, {rec("Pattern", "Object", tlist(poAlts[0]))}, {patVar, patArr1}, {patArr2, patVar, rec("Pattern", "Object", tlist(poAlts[5]))},
+		// alternatives binding different variables: each must be defined (null) whichever alternative matches
+		{patArr1, patB}, {patB, patArr2, patC}, {patC, rec("Pattern", "Array", tlist(patVar, patB))}}
 	for _, ps := range pats {
 		out = append(out, map[string]tVal{"patterns": tlist(ps...)})
 	}
@@ -156,6 +160,10 @@ var tplRoots = []tplRoot{
 	{"compileCall", 1, 1, callInputs}, {"compileCallPc", 1, 1, nil}, {"compileFuncDef", 1, 1, nil}, {"compileQuery", 1, 1, nil},
 }
 
+// tplRootInline: sub-compilations additionally executed (not left as holes) for the roots that are given concrete patterns,
+// so that the stores of the pattern variables are visible to the definite-assignment analysis.
+var tplRootInline = map[string][]string{"compileBind": {"compilePattern"}, "compilePattern": {"compilePattern"}}
+
 var tplInline = map[string]bool{"compileCallInternal": true, "compileCall": true, "compileCallPc": true, "compileFuncDef": true, "compile": true, "compileObjectKeyVal": true}
 
 func ruleC01Template(c *Ctx, r *Rep) {
@@ -181,6 +189,9 @@ func ruleC01Template(c *Ctx, r *Rep) {
 			if k != root.fn {
 				inl[k] = v
 			}
+		}
+		for _, k := range tplRootInline[root.fn] {
+			inl[k] = true
 		}
 		var variants []tplVariant
 		if root.inputs == nil {
@@ -209,7 +220,7 @@ func ruleC01Template(c *Ctx, r *Rep) {
 				unsupReasons[v.Unsupported]++
 				continue
 			}
-			msg := tplCheck(v.Items, root)
+			msg := tplCheck(v.Items, root, v.Owned)
 			if debug == root.fn {
 				fmt.Fprintf(os.Stderr, "%s | %s | %s\n", tplRender(v.Items), msg, strings.Join(v.Choices, " "))
 			}
@@ -243,7 +254,7 @@ func ruleC01Template(c *Ctx, r *Rep) {
 }
 
 // tplCheck verifies one template; "" if consistent.
-func tplCheck(items []tplItem, root tplRoot) string {
+func tplCheck(items []tplItem, root tplRoot, owned map[string]bool) string {
 	seq, why := tplToBC(items)
 	if why != "" {
 		return why
@@ -266,6 +277,9 @@ func tplCheck(items []tplItem, root tplRoot) string {
 		if e.d != root.end || e.p != 0 || e.e != 0 {
 			return fmt.Sprintf("falls out of its end with stack depth %d (declared %d), path nesting %d, exp nesting %d", e.d, root.end, e.p, e.e)
 		}
+	}
+	if msg := tplDefAssign(items, seq, owned); msg != "" {
+		return msg
 	}
 	// 2. every function body emitted inside the template: entered at its opscope with 1+arity, must return with depth 1
 	covered := append([]bool(nil), reached...)
@@ -293,5 +307,103 @@ func tplCheck(items []tplItem, root tplRoot) string {
 	// after `opbacktrack // if found, backtrack` is skipped by the jumpifnot that targets the alternative's first instruction)
 	_ = covered
 	_ = n
+	return ""
+}
+
+
+// tplDefAssign is a definite-assignment analysis over the inline flow of one template: a forward must-analysis (set
+// intersection at joins) of the variable slots stored so far. Variable slots are not restored on backtracking, so the set
+// at a fork target is at least the set at the fork instruction; that lower bound is what is propagated. Checked:
+//   - an opload/opappend of a variable created by the lowering function itself is preceded by a store on every path;
+//   - at every sub-compilation (hole), every named variable that the sub-query can resolve (the model of scope.variables at
+//     the time the hole is emitted) is stored on every path reaching the hole. A slot that is readable but was never written
+//     in this activation holds whatever an earlier activation left in the frame.
+func tplDefAssign(items []tplItem, seq []bcIns, owned map[string]bool) string {
+	n := len(seq)
+	if n == 0 {
+		return ""
+	}
+	in := make([]map[string]bool, n+1)
+	visited := make([]bool, n+1)
+	meet := func(pc int, set map[string]bool) bool {
+		if pc < 0 || pc > n {
+			return false
+		}
+		if !visited[pc] {
+			visited[pc] = true
+			cp := make(map[string]bool, len(set))
+			for k := range set {
+				cp[k] = true
+			}
+			in[pc] = cp
+			return true
+		}
+		changed := false
+		for k := range in[pc] {
+			if !set[k] {
+				delete(in[pc], k)
+				changed = true
+			}
+		}
+		return changed
+	}
+	work := []int{0}
+	meet(0, map[string]bool{})
+	for steps := 0; len(work) > 0 && steps < 200000; steps++ {
+		pc := work[len(work)-1]
+		work = work[:len(work)-1]
+		if pc >= n {
+			continue
+		}
+		ins := seq[pc]
+		out := in[pc]
+		switch ins.Op {
+		case "opstore", "opforklabel":
+			out = make(map[string]bool, len(in[pc])+1)
+			for k := range in[pc] {
+				out[k] = true
+			}
+			out[ins.VarName] = true
+		}
+		next := true
+		switch ins.Op {
+		case "opbacktrack", "opret":
+			next = false
+		case "opjump":
+			next = false
+			if meet(ins.Target, out) {
+				work = append(work, ins.Target)
+			}
+		case "opfork", "opforktrybegin", "opforkalt", "opjumpifnot":
+			if meet(ins.Target, out) {
+				work = append(work, ins.Target)
+			}
+		case "opcall":
+			if ins.NoReturn {
+				next = false
+			}
+		}
+		if next && meet(pc+1, out) {
+			work = append(work, pc+1)
+		}
+	}
+	for pc := 0; pc < n; pc++ {
+		if !visited[pc] {
+			continue
+		}
+		ins := seq[pc]
+		switch ins.Op {
+		case "opload", "opappend":
+			if owned[ins.VarName] && !in[pc][ins.VarName] {
+				return fmt.Sprintf("[%d] %s reads variable %s, which is not stored on every path reaching it", pc, ins.Op, ins.VarName)
+			}
+		case "hole":
+			for _, w := range items[pc].visible {
+				if owned[w.id] && !in[pc][w.id] {
+					return fmt.Sprintf("[%d] the sub-compilation %s can resolve %s (slot %s), which is not stored on every path reaching it: the slot would hold a stale value of an earlier activation", pc, ins.Hole, w.name, w.id)
+				}
+			}
+		}
+	}
 	return ""
 }
